@@ -1,5 +1,7 @@
 (* C05 — segmented messages reassemble correctly under any interleaving. *)
-Require Import CMP.Bytes CMP.Packet CMP.Tecmp CMP.Decoder CMP.DecoderProofs CMP.Cir CMP.CodeRefine CMPGen.GenCode.
+Require Import CMP.Bytes CMP.Packet CMP.Tecmp CMP.Decoder CMP.DecoderProofs CMP.Cir CMP.CodeBridge CMP.CodeSegPred CMPGen.GenCode.
+From Coq Require Import String List.
+Import ListNotations.
 Local Open Scope Z_scope.
 
 (* For every history h of arbitrary buffers (other endpoints' chains and unsegmented traffic, TECMP, garbage), every decoder
@@ -49,10 +51,15 @@ Definition ex_h (fl len : Z) : mhdr := {| h_ts := 7; h_id := 9; h_flags := fl; h
    (Decoder::isSegmentedPacket / isFirstSegment re-translated into the IR of Cir.v): on every message the message-level check accepted
    (16 <= size) they read in bounds and return what the model's dispatch on bits 2-3 of the common flags computes. *)
 Theorem C05_translated_segment_predicates_are_the_models : forall d, bytes_ok d -> 16 <= zlen d ->
-  ceval gen_reads d (penv d) code_Decoder_isSegmentedPacket = Ok (b2z (negb (Z.land (h_flags (parse_mhdr d)) 12 =? 0))) /\
-  ceval gen_reads d (penv d) code_Decoder_isFirstSegment = Ok (b2z (Z.land (h_flags (parse_mhdr d)) 12 =? 4)).
-Proof. intros d Hd L. split; [apply code_is_segmented|apply code_is_first]; assumption. Qed.
+  (forall c, code_Decoder_isSegmentedPacket = Some c ->
+     ceval gen_reads d (penv d) c = Ok (b2z (negb (Z.land (h_flags (parse_mhdr d)) 12 =? 0)))) /\
+  (forall c, code_Decoder_isFirstSegment = Some c ->
+     ceval gen_reads d (penv d) c = Ok (b2z (Z.land (h_flags (parse_mhdr d)) 12 =? 4))).
+Proof. intros d Hd L. split; intros c Hc; [apply code_is_segmented|apply code_is_first]; assumption. Qed.
 Print Assumptions C05_translated_segment_predicates_are_the_models.
+Theorem C05_segment_predicates_translated :
+  lost_among ["ASAM::CMP::Decoder::isSegmentedPacket"; "ASAM::CMP::Decoder::isFirstSegment"]%string = nil.
+Proof. vm_compute. reflexivity. Qed.
 
 Example C05_example :
   runc [] (cframes 1 3 1 1 65535 [ {| s_h := ex_h 4 3; s_chunk := [1;2;3]; s_trail := [238;238;238;238] |};
